@@ -389,7 +389,7 @@ func (w *world) step(code, a, b, d int64) int64 {
 }
 
 func run(sel int, in []int64) []int64 {
-	if sel != 1 && sel != 2 {
+	if sel < 1 || sel > 3 {
 		panic("unknown selector")
 	}
 	r := &rd{t: in}
@@ -442,6 +442,10 @@ func laws(sel int, in, got []int64, law func(lsel int, lin []int64, sig string))
 	lin := append(append([]int64{}, in...), got...)
 	for l := 101; l <= 110; l++ {
 		law(l, lin, "")
+	}
+	if sel == 3 { // PodGroup events before the queue is listed: laws against the PodGroups that really exist
+		law(131, lin, "")
+		law(132, lin, "")
 	}
 	if sel == 2 { // stale-lister stream: the laws at full strength
 		law(111, lin, "")
@@ -591,7 +595,121 @@ func genForest(r *vh.Rng) []gq {
 	return qs
 }
 
+// genPGFirst: the PodGroup informer is ahead of the queue informer — PodGroup events for a
+// queue (also a child queue) are handled, and usually their Sync requests processed, before
+// the queue is in the lister; then the queue is delivered and closed / opened while
+// PodGroups come and go.  No queue is deleted and no PodGroup changes its queue, so the
+// controller's index must stay complete w.r.t. the PodGroup objects.
+func genPGFirst(r *vh.Rng, i int) (in []int64, desc map[string]any) {
+	type q struct{ id, parent, state, ann int64 }
+	maxrq := int64(vh.Pick(r, []int{-1, 0, 3, 15}))
+	srvQ := []q{{1, 0, 1, 0}}
+	lstQ := []q{{1, 0, 1, 0}}
+	var evs []int64
+	ne := 0
+	add := func(c, a, b, d int64) { evs = append(evs, c, a, b, d); ne++ }
+	child := r.Chance(1, 2) // q is a child of p (2), else of root
+	parent := int64(1)
+	if child {
+		pq := q{2, 1, int64(vh.Pick(r, []int{1, 1, 0})), 0}
+		srvQ = append(srvQ, pq)
+		lstQ = append(lstQ, pq)
+		parent = 2
+	}
+	const Q = 3
+	qparent := parent
+	if r.Chance(1, 4) && !child {
+		qparent = 0 // spec.parent still unset
+	}
+	created := r.Chance(1, 2) // created during the history, else already on the server
+	if !created {
+		srvQ = append(srvQ, q{Q, qparent, 0, vh.Pick(r, []int64{0, 0, 4})})
+	}
+	all := func() {
+		for x := int64(1); x <= Q; x++ {
+			add(9, x, 0, 0)
+		}
+	}
+	// PodGroups of the parent, indexed normally
+	var pgs, ix []int64
+	if child && r.Chance(1, 2) {
+		pgs = append(pgs, 9, 2, 2)
+		ix = append(ix, 2, 9)
+	}
+	if created {
+		add(6, Q, qparent, 0)
+	}
+	k := r.Range(1, 3)
+	for g := 1; g <= k; g++ {
+		add(2, int64(g), Q, int64(r.Range(1, 5)))
+		if r.Chance(1, 4) {
+			add(3, int64(g), Q, int64(r.Range(1, 5))) // phase update (same queue)
+		}
+	}
+	early := r.Chance(3, 4) // the Sync requests run before the queue is listed
+	nsync := r.Range(1, k+1)
+	if early {
+		for g := 0; g < nsync; g++ {
+			add(11, 0, 0, 0)
+		}
+	}
+	add(9, Q, 0, 0) // the queue informer catches up
+	for g := 0; g < k+3; g++ {
+		add(11, 0, 0, 0)
+		all()
+	}
+	// commands while PodGroups come and go; the lister is kept up to date
+	live := k
+	next := int64(k + 1)
+	for n := r.Range(3, 9); n > 0; n-- {
+		switch r.Intn(8) {
+		case 0, 1, 2:
+			add(1, Q, 2, 0)
+		case 3:
+			add(1, Q, 1, 0)
+		case 4:
+			if child {
+				add(1, 2, int64(r.Range(1, 2)), 0)
+			} else {
+				add(1, Q, int64(r.Range(1, 4)), 0)
+			}
+		case 5, 6:
+			if live > 0 {
+				add(4, int64(r.Range(1, int(next)-1)), 0, 0)
+				live--
+			}
+		default:
+			add(2, next, Q, int64(r.Range(1, 5)))
+			next++
+			live++
+		}
+		for g := r.Range(1, 4); g > 0; g-- {
+			add(11, 0, 0, 0)
+			all()
+		}
+	}
+	in = []int64{maxrq, int64(len(srvQ))}
+	for _, x := range srvQ {
+		in = append(in, x.id, x.parent, x.state, x.ann)
+	}
+	in = append(in, int64(len(lstQ)))
+	for _, x := range lstQ {
+		in = append(in, x.id, x.parent, x.state, x.ann)
+	}
+	in = append(in, int64(len(pgs)/3))
+	in = append(in, pgs...)
+	in = append(in, int64(len(ix)/2))
+	in = append(in, ix...)
+	in = append(in, 0, int64(ne))
+	in = append(in, evs...)
+	return in, map[string]any{"child_queue": child, "sync_before_listed": early, "created_in_history": created, "podgroups": k, "events": ne}
+}
+
 func gen(rng *vh.Rng, n int, emit func(id string, sel int, in []int64, kind string, nontrivial bool, desc any)) {
+	for i := 0; i < n/6+8; i++ {
+		in, desc := genPGFirst(rng.Fork(), i)
+		emit(fmt.Sprintf("pgfirst-%d", i), 3, in, "podgroups-before-queue-listed", true, desc)
+	}
 	for i := 0; i < n/10+6; i++ {
 		in, desc := genStale(rng.Fork(), i)
 		emit(fmt.Sprintf("stale-%d", i), 2, in, "stale-lister", true, desc)
